@@ -23,6 +23,8 @@ const B_CLTV_DELTA: u32 = 72; // LDK's default advertised cltv_expiry_delta
 pub enum Kind {
 	/// route offers B a delta of `hop_delta` blocks and C a final delta of `final_delta`
 	ForwardBoundary { hop_delta: u32, final_delta: u32 },
+	/// the HTLC (hop delta 100, final delta 42) is held on the A→B link for `blocks_late` blocks before B sees it
+	LateArrival { blocks_late: u32 },
 	/// C never answers
 	SilentDownstream,
 	/// C claims off-chain `blocks_after_forward` blocks after it was shown the payment
@@ -82,10 +84,11 @@ pub fn run_case(c: &Case) -> Result<Outcome, (String, String)> {
 	let amt = 50_000_000u64;
 	let (hop_delta, final_delta) = match c.kind {
 		Kind::ForwardBoundary { hop_delta, final_delta } => (hop_delta, final_delta),
+		Kind::LateArrival { .. } => (100, 42),
 		_ => (100, 60),
 	};
 	let policy = match c.kind {
-		Kind::DownstreamClaimsAt { blocks_after_forward: 0 } | Kind::SilentUpstream | Kind::ForwardBoundary { .. } => ClaimPolicy::Claim,
+		Kind::DownstreamClaimsAt { blocks_after_forward: 0 } | Kind::SilentUpstream | Kind::ForwardBoundary { .. } | Kind::LateArrival { .. } => ClaimPolicy::Claim,
 		_ => ClaimPolicy::Hold,
 	};
 	// explicit route A -> B -> C
@@ -161,6 +164,14 @@ pub fn run_case(c: &Case) -> Result<Outcome, (String, String)> {
 			}
 		}
 	};
+	if let Kind::LateArrival { blocks_late } = c.kind {
+		// nothing is delivered while the chain advances
+		for _ in 0..blocks_late {
+			w.chain.mine_ordered(Vec::new());
+			w.sync_all();
+		}
+	}
+	let height_at_forward = w.chain.height();
 	if let Kind::SilentUpstream = c.kind {
 		// let the HTLC reach C and C's fulfil reach B, but nothing from B reaches A any more once B has the preimage
 		for _ in 0..200 {
@@ -207,7 +218,12 @@ pub fn run_case(c: &Case) -> Result<Outcome, (String, String)> {
 		Obs::Sent { from: 1, to: 2, wire: Wire::Add(m) } if m.payment_hash == hash => Some(m.cltv_expiry),
 		_ => None,
 	});
-	if let Kind::ForwardBoundary { hop_delta, final_delta } = c.kind {
+	let boundary = match c.kind {
+		Kind::ForwardBoundary { hop_delta, final_delta } => Some((hop_delta, final_delta)),
+		Kind::LateArrival { .. } => Some((hop_delta, final_delta)),
+		_ => None,
+	};
+	if let Some((hop_delta, final_delta)) = boundary {
 		let forwarded = add_out.is_some();
 		let claimable = w.obs.iter().any(|o| matches!(o, Obs::Event { node: 2, ev: Event::PaymentClaimable { .. } }));
 		if forwarded {
@@ -215,6 +231,15 @@ pub fn run_case(c: &Case) -> Result<Outcome, (String, String)> {
 			if ci < co + B_CLTV_DELTA {
 				return Err(viol("forwarded-with-too-small-delta", format!("B forwarded an HTLC expiring at {} with an outgoing expiry {} (needs its advertised delta of {} blocks)", ci, co, B_CLTV_DELTA)));
 			}
+			// an outgoing HTLC that is already inside the grace period after which B itself would go on chain
+			// for it expires too soon to be resolved safely
+			if co <= height_at_forward + 1 + LATENCY_GRACE_PERIOD_BLOCKS {
+				return Err(viol(
+					"forwarded-htlc-expiring-too-soon",
+					format!("at height {} B forwarded an HTLC whose outgoing expiry is {} (incoming {}): not later than next height + grace period {}", height_at_forward, co, ci, LATENCY_GRACE_PERIOD_BLOCKS),
+				));
+			}
+			crate::runner::witness("c08-forward-expiry-checked");
 		} else if hop_delta >= B_CLTV_DELTA && final_delta >= 42 {
 			// offered at least the advertised delta with a comfortable final delta: refusing is allowed only for
 			// documented reasons; record, do not judge
@@ -223,6 +248,14 @@ pub fn run_case(c: &Case) -> Result<Outcome, (String, String)> {
 		let a_failed = w.obs.iter().any(|o| matches!(o, Obs::Event { node: 0, ev: Event::PaymentFailed { .. } }));
 		if !a_sent && !a_failed {
 			return Err(viol("no-terminal-outcome", format!("hop delta {} final delta {}: the payer got neither PaymentSent nor PaymentFailed", hop_delta, final_delta)));
+		}
+		if claimable {
+			// shown to the recipient: its expiry must leave the claim window (HTLC_FAIL_BACK_BUFFER = 39 blocks)
+			if let Some(co) = add_out {
+				if co <= height_at_forward + 1 + 39 - 1 {
+					return Err(viol("claimable-htlc-expiring-too-soon", format!("at height {} C was shown an HTLC expiring at {}", height_at_forward, co)));
+				}
+			}
 		}
 		return Ok(Outcome { label: format!("fwd={} claimable={} sent={}", forwarded as u8, claimable as u8, a_sent as u8) });
 	}
@@ -380,7 +413,7 @@ pub fn run_case(c: &Case) -> Result<Outcome, (String, String)> {
 				None => Err(viol("inbound-claim-missing", format!("{}: B never claimed the inbound HTLC on chain (commitment broadcast at {})", ctx, hb))),
 			}
 		},
-		Kind::ForwardBoundary { .. } => unreachable!(),
+		Kind::ForwardBoundary { .. } | Kind::LateArrival { .. } => unreachable!(),
 	}
 }
 
@@ -391,6 +424,16 @@ pub fn cases(tier: Tier) -> Vec<Case> {
 		for final_delta in [38u32, 40, 41, 42, 43, 60] {
 			v.push(Case { kind: Kind::ForwardBoundary { hop_delta, final_delta }, miner_delay: 0 });
 		}
+	}
+	// outgoing expiry at / around "next height + grace period" with a comfortable incoming expiry
+	for hop_delta in [72u32, 100] {
+		for final_delta in [0u32, 1, 2, 3, 4, 5, 6, 10, 20] {
+			v.push(Case { kind: Kind::ForwardBoundary { hop_delta, final_delta }, miner_delay: 0 });
+		}
+	}
+	let lates: Vec<u32> = if th { (30..=106).collect() } else { vec![30, 36, 37, 38, 39, 40, 41, 42, 45, 60, 100, 101, 102, 103, 104] };
+	for blocks_late in lates {
+		v.push(Case { kind: Kind::LateArrival { blocks_late }, miner_delay: 0 });
 	}
 	let delays: Vec<u32> = if th { vec![0, 1, 6, 12, 17] } else { vec![0, 17] };
 	for d in delays.iter() {
